@@ -413,7 +413,12 @@ func mutationPhase(env *vh.Env, rep *vh.Report, r *vh.Rng) {
 		lines := make([]string, len(objs))
 		last := make([]string, len(objs))
 		for i, o := range objs {
-			if step > 0 {
+			if step > 0 && r.Chance(30) {
+				// no mutation between two sends: the second frame must be byte-identical to the first
+				last[i] = "no-mutation"
+				o.log = append(o.log, "(no mutation)")
+			} else if step > 0 {
+				o.mutated = true
 				ms := append(append([]mutator{}, mutatorsOf(o)...), hdrMutators...)
 				for k, n := 0, 1+r.Intn(2); k < n && len(ms) > 0; k++ {
 					var m mutator
@@ -475,6 +480,37 @@ func mutationPhase(env *vh.Env, rep *vh.Report, r *vh.Rng) {
 				}
 			})
 			o.log = append(o.log, "send("+route+")")
+			// (a) a send must not change the object's public state, except what the model says a send changes
+			if g.OK() {
+				var after string
+				if ga := vh.Guard(func() { after = dumpPack(o) + " lic=" + vh.Hex([]byte(o.lic)) }); ga.OK() {
+					if fld, same := sendStateDiff(o.typ, lines[i], after); !same {
+						rep.Fail("property", o.goName+":send-changes-public-state["+fld+"]",
+							fmt.Sprintf("%s: sending the object (route %s) changed its public state: field %s differs between the dump before and the dump after the send", o.goName, route, fld),
+							map[string]interface{}{"what_was_done_to_the_object": o.log, "public_state_before_the_send": vh.Clip(lines[i], 3000),
+								"public_state_after_the_send": vh.Clip(after, 3000), "field": fld, "route": route, "seed": env.Seed})
+					}
+				}
+				rep.Count("resend:state-compared-before-after")
+			}
+			// (b) the same object sent twice with no mutation in between: byte-identical payloads
+			payload := got
+			if route != "ToBytesPack" && len(got) >= 22 {
+				payload = got[22:]
+			}
+			if g.OK() && !o.mutated && o.lastPayload != nil && !o.lastReserved {
+				rep.Count("resend:unmutated-pair")
+				if !bytes.Equal(payload, o.lastPayload) {
+					rep.Fail("property", o.goName+":resend-differs",
+						fmt.Sprintf("%s: the same object sent twice with no mutation in between gave different bytes (first difference at payload offset %d; second send through %s)", o.goName, firstDiff(o.lastPayload, payload), route),
+						map[string]interface{}{"what_was_done_to_the_object": o.log, "public_state": vh.Clip(lines[i], 3000),
+							"first_payload_hex": vh.Clip(vh.Hex(o.lastPayload), 3000), "second_payload_hex": vh.Clip(vh.Hex(payload), 3000), "route": route, "seed": env.Seed})
+				}
+			}
+			if g.OK() {
+				o.lastPayload, o.mutated = append([]byte{}, payload...), false
+				o.lastReserved = o.typ == "event" && hasReservedAttr(lines[i])
+			}
 			rep.Case(fmt.Sprintf("resend %s step %d %s", vh.Clip(lines[i], 150), step, route), step > 0)
 			rep.Count("resend-route:" + route)
 			if !g.OK() || !bytes.Equal(got, exp) {
@@ -491,4 +527,77 @@ func mutationPhase(env *vh.Env, rep *vh.Report, r *vh.Rng) {
 		}
 	}
 	rep.Note("re-send after mutation: %d live objects (%d per type) x %d sends, every send preceded by 1-2 public mutations; routes socket/makeData/ToBytesPack", len(objs), perType, steps)
+}
+
+var reservedHex = []string{hx("_uuid_"), hx("_esca_"), hx("_status_"), hx("_otype_")}
+
+func lineFields(line string) map[string]string {
+	m := map[string]string{}
+	for _, tok := range strings.Split(line, " ")[1:] {
+		if k, v, ok := strings.Cut(tok, "="); ok {
+			m[k] = v
+		}
+	}
+	return m
+}
+
+func isReservedEntry(e string) bool {
+	k, _, _ := strings.Cut(e, ":")
+	for _, r := range reservedHex {
+		if k == r {
+			return true
+		}
+	}
+	return false
+}
+
+func hasReservedAttr(line string) bool {
+	a := lineFields(line)["attr"]
+	if a == "" || a == "-" {
+		return false
+	}
+	for _, e := range strings.Split(a, "/") {
+		if isReservedEntry(e) {
+			return true
+		}
+	}
+	return false
+}
+
+// sendStateDiff compares the public state before and after a send.  What the model lets a send change:
+//
+//	tag-count / log-sink: the stored tag hash, and only when it was 0 (it becomes the hash that was written);
+//	event: attributes under the reserved keys (they exist only on the wire: a send removes them).
+func sendStateDiff(typ, before, after string) (string, bool) {
+	b, a := lineFields(before), lineFields(after)
+	if typ == "event" {
+		var kept []string
+		if x := b["attr"]; x != "" && x != "-" {
+			for _, e := range strings.Split(x, "/") {
+				if !isReservedEntry(e) {
+					kept = append(kept, e)
+				}
+			}
+		}
+		if len(kept) == 0 {
+			b["attr"] = "-"
+		} else {
+			b["attr"] = strings.Join(kept, "/")
+		}
+	}
+	for k, v := range b {
+		if a[k] == v {
+			continue
+		}
+		if k == "tagHash" && v == "0" {
+			continue
+		}
+		return k, false
+	}
+	for k := range a {
+		if _, ok := b[k]; !ok {
+			return k, false
+		}
+	}
+	return "", true
 }
